@@ -244,7 +244,7 @@ func parseTxn(isResp bool, w []string) (txn, bool) {
 		t.status = n
 		return t, true
 	}
-	if len(w) != 4 {
+	if len(w) != 4 && len(w) != 5 {
 		return t, false
 	}
 	h, ok1 := proto.KV(w[2:], "h")
@@ -270,6 +270,14 @@ func parseTxn(isResp bool, w []string) (txn, bool) {
 		items = append(items, p.k+"="+p.v)
 	}
 	t.query = strings.Join(items, "&")
+	if len(w) == 5 {
+		// `rq=<raw query string>` (malformed pairs, escapes, separators) wins over the well-formed list
+		raw, ok := proto.KV(w[4:], "rq")
+		if !ok {
+			return t, false
+		}
+		t.query = proto.Dec(raw)
+	}
 	return t, true
 }
 
